@@ -109,6 +109,16 @@ Tri ==
               wrong == {k \in 1..N : R.r2[k] # want[k]}
               k == CHOOSE k \in wrong : \A j \in wrong : k <= j
           IN R.r2 = want \/ Chk(FALSE, RevKey("twice", R.r2[k], want[k], s))
+       \* "reversing a path twice restores it" holds for every decodable meta header, also where the info
+       \* pointer is not the segment of the hop pointer
+       /\ \A ci \in 0..(NI - 1) :
+            LET want == [k \in 1..N |-> EncMeta(s, ci, k - 1)]
+                wrong == {k \in 1..N : R.r2all[ci + 1][k] # want[k]}
+                k == CHOOSE k \in wrong : \A j \in wrong : k <= j
+            IN R.r2all[ci + 1] = want
+               \/ Chk(FALSE, RevKey("twice", R.r2all[ci + 1][k], want[k], s) \o
+                              (IF so[k - 1] = ci THEN "" ELSE ",info-pointer-in-another-segment"))
+       /\ Chk(R.restoredall = NI * N, "reverse:twice-does-not-restore-bytes:any-pointers:ninf=" \o ToString(NI))
        /\ Chk(R.agree = N, "reverse:raw-and-decoded-bytes-differ:ninf=" \o ToString(NI))
        /\ Chk(R.restored = N, "reverse:twice-does-not-restore-bytes:ninf=" \o ToString(NI))
        /\ Chk(R.tdr = N, "todecoded-toraw:not-identity:ninf=" \o ToString(NI))
